@@ -166,7 +166,7 @@ theorem Inv3.obj {H : Home} {N : Int} {ρ : Ticket → Ticket} {g : Hist} {ru rr
   obtain ⟨pe, keys, member, hd, hr, hb, hf⟩ := absNode_obj hp
   have hmem : ∀ k' c, f k' = some c → ρ c = c ∧ c.lamport ≤ N := by
     intro k' c hc
-    obtain ⟨_, hpar, hl⟩ := fk_home i.wfc hd hb hf hc
+    obtain ⟨_, hpar, hl⟩ := fk_home i.wfc hd hr hb hf hc
     obtain ⟨ce, hce, _⟩ := live_elem hl
     have hcN := i.bdc.ent _ _ hce
     exact ⟨i.fixed hcN hpar hp, hcN⟩
@@ -321,30 +321,30 @@ theorem inv3_undo_rem {H : Home} {N : Int} {ρ : Ticket → Ticket} {g : Hist} {
 
 theorem inv3_undo_inc {H : Home} {N : Int} {ρ : Ticket → Ticket} {g : Hist} {c ts0 : Ticket} {delta : Int}
     {ru rr : List UOp} {X Y : Doc} {more future : List Doc}
-    (i : Inv3 H N ρ g (.increase c delta ts0 :: ru) rr (X :: more) Y future) (gi : GoodInc H Y c delta) :
+    (i : Inv3 H N ρ g (.increase c delta ts0 :: ru) rr (X :: more) Y future) (gi : GoodInc Y c delta) :
     ∃ rr', Inv3 H N ρ (undo g) ru rr' more X (Y :: future) ∧
       (rr'.length = rr.length + 1 ∨ maxDepth ≤ rr'.length) := by
   obtain ⟨en, chU'⟩ := i.chU
-  obtain ⟨l, v, q, fq, hc, hwd, hwv, hpar, hq⟩ := gi
+  obtain ⟨l, v, hc, hwd, hwv⟩ := gi
   have hcN : c.lamport ≤ N := en.idb
-  have hρc : ρ c = c := i.fixed hcN hpar hq
   have hNl := i.hN
-  have hAc : absNode g.doc c = some (.cnt l v) := i.leafAt hcN hρc hc rfl
+  have hAc : absNode g.doc (ρ c) = some (.cnt l v) := by
+    have := i.sim.node c hcN; rw [hc] at this; exact this
   obtain ⟨d', he, res, hpl⟩ := inc_explicit (tw := noTw) (ts0 := ts0) (ts := g.next) (src := .undoRedo) i.wf i.bd
     i.pl (by simp only [Hist.next]; omega) hAc hwd hwv rfl
   have hinv : inv3 H Y (.increase c delta g.next) = .increase c (wrap l (-delta)) g.next := by
     simp only [inv3, hc]
   have hXeq : absNode X = ainc (absNode Y) c delta := en.back
   have hgood := inv3_good (tw := noTw) (r := .increase c delta g.next) i.wfc en.wfX i.bdc i.plc en.skel
-    ⟨l, v, q, fq, hc, hwd, hwv, hpar, hq⟩ hcN i.hN0 hXeq
+    ⟨l, v, hc, hwd, hwv⟩ hcN i.hN0 hXeq
   have hsimX : Sim ρ N (absNode X) (absNode d') := by
     rw [res.node, hXeq]
-    exact i.sim.ainc hc hρc hcN
+    exact i.sim.ainc hc hcN
   have hYc : absNode Y c ≠ none := by rw [hc]; simp
-  have hent : (fullRen ρ (.increase c delta ts0)).withTs g.next = .increase c delta g.next := by
-    simp only [fullRen, UOp.withTs, hρc]
+  have hent : (fullRen ρ (.increase c delta ts0)).withTs g.next = .increase (ρ c) delta g.next := by
+    simp only [fullRen, UOp.withTs]
   refine inv3_undo_finish (qr := inv3 H Y (.increase c delta g.next)) i rfl (by rfl)
-    (by rw [hent, hinv]; simp only [fullRen, hρc]; exact he) res.wf res.bd (hpl.mono (by omega)) res.skel hsimX
+    (by rw [hent, hinv]; simp only [fullRen]; exact he) res.wf res.bd (hpl.mono (by omega)) res.skel hsimX
     ⟨i.wfc, i.bdc, i.plc, hgood.1, hgood.2.1, fun t => (en.skel t).symm, hgood.2.2,
       by rw [inv3_par]; exact en.pb⟩ ?_ ?_
   · intro a ha; rw [hinv] at ha; cases ha
